@@ -75,6 +75,8 @@ def do_import(wt, pid):
             x = {'a': 'e', 'b': 'f'}.get(x, x)
         if os.environ.get('SEED_ROUND') == '4':
             x = {'a': 'g', 'b': 'h'}.get(x, x)
+        if os.environ.get('SEED_ROUND') == '5':
+            x = {'a': 'i', 'b': 'j'}.get(x, x)
         sid = '%s_%s' % (pid, x)
         print(sid, json.dumps({k: c[k] for k in c if k != 'demo_patched_tail'}))
         if c.get('confirmed'):
